@@ -516,6 +516,7 @@ def gen_sys_cases(ctx):
         cases.append(CS.gen_sensible(rng, trs[i % 4] if i % 8 < 7 else "tcp-lines"))
     for i in range(n_a):
         cases.append(CS.gen_adversarial(rng, trs[i % 3]))
+    cases += CS.gen_backlogs()
     return cases
 
 
